@@ -85,11 +85,13 @@ def nextElementBytes (pj : PJ) (o : View) : (fuel : Nat) → Res (View × Option
       let elemSize := (d0.calcNext false).addNext
       let d := d0.calcNext true
       let e : Int := (off : Int) + elemSize
-      if e > o.lim then .error .generic
-      else if e < 0 then .panic
+      if elemSize < 0 then .error .generic
+      else if e > o.lim then .error .generic
       else .ok ({ o with off := e.toNat }, some (name, { d with lim := e.toNat }, tagToType d.t))
     else if tg == tagObjectEnd then .ok (o, none)
-    else if tg == tagNop then nextElementBytes pj { o with off := o.off + (payloadOf v).toNat } fuel
+    else if tg == tagNop then
+      if (payloadOf v).toNat = 0 then .error .generic
+      else nextElementBytes pj { o with off := o.off + (payloadOf v).toNat } fuel
     else .error .generic
 
 end View
